@@ -719,6 +719,51 @@ def same_store(s, st0):
     return diffs
 
 
+def descent_invariant(ck, ins, header, pp, pl, x, cand, mask, adj, frag_of=None):
+    """is  x == cand(parent, link)  an invariant of the descent loop?  checked on the arrival from the function entry and, with the
+    loop head seeded accordingly at the root link and below a node, on every arrival of one step"""
+    def frag(holder, content):
+        fr = Frag(mask)
+        if content:
+            fr.summary('ML', p='M', h=sp.Integer(1))
+            fr.summary('MR', p='M', h=sp.Integer(1))
+            fr.node('M', l='ML', r='MR', p='Hn' if holder != 'root' else None, tag=1)
+        if holder == 'root':
+            fr.rootobj, fr.top = 'ROOT', ('M' if content else None)
+        else:
+            fr.summary('HS', p='Hn', h=sp.Integer(1))
+            c = 'M' if content else None
+            fr.node('Hn', l=c if holder == 'l' else 'HS', r=c if holder == 'r' else 'HS', p='HP', tag=1)
+        fr.node('NEW', l='?', r='?', p='?', tag=0)
+        return fr
+    args = [Ptr('ROOT', 0), Ptr('NEW', 0), symx.FnPtr('cmp')]
+    try:
+        for content in (True, False):
+            fr = frag('root', content)
+            st = fr.state()
+            it = symx.Interp(TreeDom(mask), ck.lookup, inline=lambda n: n != adj)
+            ro, rets = it.run_region(ins, args, ins.entry, {}, [header], st=st)
+            for s_, blk, prev in ro:
+                vals = {p.res: it.val(p.ops[p.x['labels'].index(prev.name)], s_, ins) for p in (pp, pl, x)}
+                if vals[x.res] != cand(vals[pp.res], vals[pl.res], s_, it, x.ty):
+                    return False
+        for holder in ('root', 'l', 'r'):
+            link = Ptr('ROOT', 0) if holder == 'root' else Ptr('Hn', Frag.L if holder == 'l' else Frag.R)
+            par = NULL if holder == 'root' else Ptr('Hn', 0)
+            fr = frag(holder, True)
+            st = fr.state()
+            it = symx.Interp(TreeDom(mask), ck.lookup, inline=lambda n: n != adj)
+            env = {pp.res: par, pl.res: link, x.res: cand(par, link, st, it, x.ty)}
+            ro, rets = it.run_region(ins, args, header, env, [header], st=st)
+            for s_, blk, prev in ro:
+                vals = {p.res: it.val(p.ops[p.x['labels'].index(prev.name)], s_, ins) for p in (pp, pl, x)}
+                if vals[x.res] != cand(vals[pp.res], vals[pl.res], s_, it, x.ty):
+                    return False
+    except Unsupported:
+        return False
+    return True
+
+
 def descents(ck, prefix, mask, rule='D1'):
     """insert: comparison-directed descent, duplicate returns the resident node untouched, the new node is initialised and
     attached at the null link that ended the descent, then rebalancing is called; search: same direction convention"""
@@ -739,10 +784,39 @@ def descents(ck, prefix, mask, rule='D1'):
     phis = [i for i in header.instrs if i.op == 'phi']
     pl = [p for p in phis if p.ty.is_ptr and p.ty.a is not None and p.ty.a.is_ptr]
     pp = [p for p in phis if p not in pl]
-    if len(pl) != 1 or len(pp) != 1:
+    # further node-pointer variables are accepted when they are redundant: equal to *link or to parent at the loop head, by
+    # induction (checked on the entry and on every step below); the first non-link pointer that is not redundant is the parent
+    if len(pl) != 1 or len(pp) < 1 or any(not p.ty.is_ptr for p in pp):
         rep.unk(rule, ins.name, 'descent loop does not carry (parent, link)')
         return
-    pl, pp = pl[0], pp[0]
+    pl = pl[0]
+    CANDS = {'*link': lambda par_, link_, st_, it_, ty_: it_.load(link_, ty_, st_), 'parent': lambda par_, link_, st_, it_, ty_: par_}
+    choice = None
+    for cand_pp in pp:
+        extras = [p for p in pp if p is not cand_pp]
+        sel = {}
+        okc = True
+        for x in extras:
+            sel[x.res] = None
+            for cname in ('*link', 'parent'):
+                if descent_invariant(ck, ins, header, cand_pp, pl, x, CANDS[cname], mask, adj, frag_of=None):
+                    sel[x.res] = cname
+                    break
+            if sel[x.res] is None:
+                okc = False
+        if okc:
+            choice = (cand_pp, extras, sel)
+            break
+    if choice is None:
+        rep.unk(rule, ins.name, 'descent loop does not carry (parent, link)')
+        return
+    pp, extras, sel = choice
+
+    def seed(par_, link_, st_, it_):
+        env = {pp.res: par_, pl.res: link_}
+        for x in extras:
+            env[x.res] = CANDS[sel[x.res]](par_, link_, st_, it_, x.ty)
+        return env
 
     def frag(holder, content):
         fr = Frag(mask)
@@ -768,7 +842,7 @@ def descents(ck, prefix, mask, rule='D1'):
         dom = TreeDom(mask)
         it = symx.Interp(dom, ck.lookup, inline=lambda n: n != adj)
         try:
-            ro, rets = it.run_region(ins, [Ptr('ROOT', 0), Ptr('NEW', 0), symx.FnPtr('cmp')], header, {pp.res: par, pl.res: link}, [header], st=st)
+            ro, rets = it.run_region(ins, [Ptr('ROOT', 0), Ptr('NEW', 0), symx.FnPtr('cmp')], header, seed(par, link, st, it), [header], st=st)
         except Unsupported as e:
             rep.unk(rule, '%s step at %s' % (ins.name, holder), str(e))
             continue
@@ -817,7 +891,7 @@ def descents(ck, prefix, mask, rule='D1'):
         dom = TreeDom(mask)
         it = symx.Interp(dom, ck.lookup, inline=lambda n: n != adj)
         try:
-            ro, rets = it.run_region(ins, [Ptr('ROOT', 0), Ptr('NEW', 0), symx.FnPtr('cmp')], header, {pp.res: par, pl.res: link}, [header], st=st)
+            ro, rets = it.run_region(ins, [Ptr('ROOT', 0), Ptr('NEW', 0), symx.FnPtr('cmp')], header, seed(par, link, st, it), [header], st=st)
         except Unsupported as e:
             rep.unk(rule, '%s attach at %s' % (ins.name, holder), str(e))
             continue
